@@ -23,6 +23,9 @@ def run(tier="quick", seed=0, replay=None):
         print(open(replay).read())
         return 1
     core.lean_stage(chk, "C02")
+    from harness import cover
+    _cv = cover.Cover(['ixai/explainer/pfi.py', 'ixai/explainer/base.py', 'ixai/utils/tracker/multi_value.py', 'ixai/imputer/marginal_imputer.py', 'ixai/imputer/default_imputer.py'])
+    _cv.__enter__()
     quick = tier == "quick"
 
     def extra(rig, cfg):
@@ -48,6 +51,8 @@ def run(tier="quick", seed=0, replay=None):
         if rig.steps[-1]["error"] is None and imp.get(ign) != "0":
             chk.violation("ignored-feature", f"IncrementalPFI {_expl.cfg_desc(cfg)}: the model ignores feature {rig.names[ign]!r} but "
                           f"its importance is {imp.get(ign)}", _expl.replay_payload(rig, cfg, 3))
+    _cv.__exit__(None, None, None)
+    cover.gate(chk, _cv, only_functions=['IncrementalPFI', 'BaseIncrementalFeatureImportance.__init__', 'BaseIncrementalFeatureImportance.importance_values', 'BaseIncrementalFeatureImportance.variances', 'MultiValueTracker', 'MarginalImputer', 'DefaultImputer'])
     chk.exhaustive = False
     chk.extra["explanation"] = ("pfi_refines_spec: importance/variance trackers of every feature are folds of the base statistic over the "
                                 "per-observation contributions (closed forms via C10/C12), for every stream; the real class is compared "
